@@ -88,6 +88,11 @@ def h_engine(P, engine, n, d=1):
 
     prob, F, maximize, bounds = mk_problem(P, d)
     stub_apply_bounds(P)
+    if engine in ("sea-xover", "ga"):
+        # the crossover's own arithmetic is decided by operator.xover (C02) and xover.* (C01); inside the composed engine it is
+        # replaced by its contract (children = arbitrary in-box points, fitness invalidated through the real update_genome)
+        from .c01 import _stub_convex
+        _stub_convex(P, bounds)
     parents = mk_inds(P, prob, n, d, "p", fitness="F", F=F, bounds=bounds)
     snap = _snapshot(parents)
     kw = {}
